@@ -11,16 +11,16 @@ def parse(path):
     if not os.path.exists(path):
         return out
     for line in open(path):
-        m = re.match(r"^(C\d\d[b-q]?-\d+) (.*)$", line.strip())
+        m = re.match(r"^(C\d\d[b-r]?-\d+) (.*)$", line.strip())
         if m:
             out[m.group(1)] = m.group(2)
     return out
 
 confirm = {}
-for f in ("confirm.log", "confirm3.log", "confirm4.log", "confirm5.log", "confirm6.log", "confirm7.log", "confirm8.log", "confirm9.log", "confirm10.log", "confirm10b.log", "confirm11.log", "confirm11b.log", "confirm12.log", "confirm13.log", "confirm14.log", "confirm15.log", "confirm16.log", "confirm17.log", "confirm18.log"):
+for f in ("confirm.log", "confirm3.log", "confirm4.log", "confirm5.log", "confirm6.log", "confirm7.log", "confirm8.log", "confirm9.log", "confirm10.log", "confirm10b.log", "confirm11.log", "confirm11b.log", "confirm12.log", "confirm13.log", "confirm14.log", "confirm15.log", "confirm16.log", "confirm17.log", "confirm18.log", "confirm19.log"):
     confirm.update(parse(os.path.join(SRC, f)))
 evals = {}
-for f in sys.argv[1:] or ["eval-final.log", "eval4.log", "eval5.log", "eval6.log", "eval-rerun.log", "eval7.log", "eval8.log", "eval9.log", "eval10.log", "eval10b.log", "eval11.log", "eval11b.log", "eval11-final.log", "eval12.log", "eval12b.log", "eval12-final.log", "eval13.log", "eval13b.log", "eval13-final.log", "eval14.log", "eval14-final.log", "eval14b.log", "eval14b-final.log", "eval15.log", "eval15-final.log", "eval16.log", "eval16b.log", "eval16-final.log", "eval17.log", "eval17-final.log", "eval17b.log", "eval18.log", "eval18-final.log"]:
+for f in sys.argv[1:] or ["eval-final.log", "eval4.log", "eval5.log", "eval6.log", "eval-rerun.log", "eval7.log", "eval8.log", "eval9.log", "eval10.log", "eval10b.log", "eval11.log", "eval11b.log", "eval11-final.log", "eval12.log", "eval12b.log", "eval12-final.log", "eval13.log", "eval13b.log", "eval13-final.log", "eval14.log", "eval14-final.log", "eval14b.log", "eval14b-final.log", "eval15.log", "eval15-final.log", "eval16.log", "eval16b.log", "eval16-final.log", "eval17.log", "eval17-final.log", "eval17b.log", "eval18.log", "eval18-final.log", "eval19.log", "eval19-final.log"]:
     for k, v in parse(os.path.join(SRC, f)).items():
         evals.setdefault(k, []).append(v)
 
